@@ -41,8 +41,8 @@ ASSUMPTIONS = [
     "equality of decoded arguments is ==, except NaN (float/Decimal: same NaN kind), FilePath (text-mode path) and "
     "DateTime (same wall-clock fields, offset within one minute, identical when the offset is a whole minute)",
 ]
-MIN = {"quick": {"evaluations": 400000, "nontrivial": 100000, "outcomes": 12},
-       "thorough": {"evaluations": 400000, "nontrivial": 100000, "outcomes": 12}}
+MIN = {"quick": {"evaluations": 600000, "nontrivial": 400000, "outcomes": 12},
+       "thorough": {"evaluations": 600000, "nontrivial": 400000, "outcomes": 12}}
 
 NSHARD = 48
 
